@@ -67,6 +67,12 @@ def check_case(case):
         parts = None
     try:
         qr = call(getattr(segno, fn), content, **kw)
+        if fn == 'make_sequence':
+            seq = call(list, qr)
+            if len(seq) != 1:
+                return Outcome((), labels + ['sequence-multi'], False)
+            qr = seq[0]
+            labels.append('sequence-single')
     except Refused as ex:
         devs = []
         if parts is not None and len(parts) == 1 and req_mode != 'INVALID':
@@ -190,8 +196,10 @@ def text_cases(draw):
     kw = {}
     if draw(st.integers(0, 9)) < 7:
         kw['mode'] = draw(st.sampled_from(list(gens.MODES) + ['Numeric', 'KANJI', 1, 2, 4, 8, 13]))
-    fn = draw(st.sampled_from(['make', 'make', 'make_qr', 'make_micro']))
-    if draw(st.integers(0, 9)) < 5:
+    fn = draw(st.sampled_from(['make', 'make', 'make', 'make_qr', 'make_micro', 'make_sequence']))
+    if fn == 'make_sequence':
+        kw['version'] = draw(st.sampled_from([1, 2, 5, 10]))
+    elif draw(st.integers(0, 9)) < 5:
         vs = list(R.MICRO) + [1, 2, 5, 10, 27] if fn == 'make' else (list(R.MICRO) if fn == 'make_micro' else [1, 2, 9, 10, 26, 27])
         kw['version'] = draw(st.sampled_from(vs))
     if fn == 'make' and 'version' not in kw and draw(st.booleans()):
@@ -205,7 +213,7 @@ def text_cases(draw):
 
 
 def required_labels(tier):
-    return ['auto-numeric', 'auto-alphanumeric', 'auto-kanji', 'auto-byte', 'honoured', 'mode-req-hanzi',
+    return ['sequence-single', 'auto-numeric', 'auto-alphanumeric', 'auto-kanji', 'auto-byte', 'honoured', 'mode-req-hanzi',
             'mode-req-kanji', 'refused', 'M1', 'M2', 'M3', 'M4']
 
 
